@@ -9,6 +9,7 @@ import (
 	"context"
 	"encoding/json"
 	"fmt"
+	"time"
 
 	"github.com/lni/dragonboat/v4"
 	pb "github.com/lni/drummer/v3/drummerpb"
@@ -170,7 +171,12 @@ func (v *VerifElection) Turn(cancelled bool) {
 	v.tick++
 	ctx, cancel := context.WithCancel(context.Background())
 	if cancelled {
+		// a deadline that has already passed makes every DB operation of the
+		// turn fail before it is issued; a merely cancelled context races with
+		// the completion of the operation inside dragonboat
 		cancel()
+		ctx, cancel = context.WithDeadline(context.Background(),
+			time.Now().Add(-time.Hour))
 	}
 	defer cancel()
 	if v.em.isLeader() {
